@@ -199,6 +199,12 @@ def check(ctx, report):
     ecdsa_points(ctx, report, RULE='C01.R16')
     defaults_are_values(ctx, report)
     indistinguishable_optionals(ctx, report)
+    # the SSH identification string and the SPF network terms are decided by tabulation (C07.R6, C18.R7): what is composed is read
+    # back as the same fields (comment blanks kept, prefix lengths not dropped)
+    from .c07 import banner
+    banner(ctx, report, RULE='C01.R19')
+    from .c18 import spf_network_composer
+    spf_network_composer(ctx, report, rule='C01.R20')
     if 'SslRecord' in reviewed and reviewed['SslRecord'].get('strip_header'):
         # the header left out of the element-wise comparison above
         from .c06 import ssl2_header
